@@ -847,8 +847,16 @@ cseKillExpFrExpInfoList(ExpInfoList expInfoList, Bitv bitv,
 		if (cseIsCEnv(expInfo->exp)) continue;
 #endif
 
-		if (bit)
+		if (bit) {
 			bitvSet(class, bitv, expInfo->expNo);
+			/*
+			 * Out = (In U Gen) - Kill: an earlier occurrence of
+			 * the expression in this block has put its phantom
+			 * bit into Kill.  The expression is killed from here
+			 * on, so the phantom bit must leave the block.
+			 */
+			bitvClear(class, bitv, csePhantomNo(expInfo->exp));
+		}
 		else
 			bitvClear(class, bitv, expInfo->expNo);
 
